@@ -799,6 +799,8 @@ func c14Run(c *core.Ctx) {
 	r.familySnapshot()
 	c14CheckPools(c, "family snapshot", c14Payload{Family: "snapshot"})
 	r.familyTwice()
+	c14CheckPools(c, "family twice", c14Payload{Family: "twice"})
+	c14FailureFamily(c, r)
 	r.familyReread()
 	c14CheckPools(c, "family reread", c14Payload{Family: "reread"})
 	r.familyFnDML(c.Thorough())
